@@ -44,6 +44,16 @@ CHECKS = {
         note="Trusted: H1/H2; the reading of `on: step` (fires when a step completes) and of before_update/updated (acts created/closed under the owner) stated in the evidence assumptions. Hooks are only counted for processes that finished.",
         technique="deterministic simulation: seeded answer orders/schedules, counting oracle over stream and trace",
         ref="DESIGN.md §6 C16"),
+    "C07": dict(
+        text="Differential against RefEnv (a map per declaring scope): 1..3 concurrent processes of a generated straight-line program of writers (set, script $set, script return value, client options with declared / undeclared / __private keys) and readers (message parameter templates, branch conditions, terminal outputs), each process with its own start valuation and client-supplied values, under seeded schedules that interleave the processes; every observed value, the branch taken, the exact key set and values of the terminal outputs, the confinement of undeclared/private keys and of a step-declared name are compared with the model. Sampling: evidence, not proof.",
+        note="Trusted: RefEnv (names declared by the workflow or by one step; reads of undeclared names unconstrained). The cut of options is judged only for acts that declare outputs. Client actions happen at quiescent points; the processes interleave at task granularity.",
+        technique="deterministic simulation: differential against a scope/environment reference model, multi-process interleaving",
+        ref="DESIGN.md §6 C07"),
+    "C19": dict(
+        text="Seeded search over rule sets (1..3 rules in s/m/h/d on an act, optionally on its step), tick_interval_secs, tick phase, the simulated instant of the client's answer (before/around/after each limit, never) and stalled ticks (forward clock jumps of several periods), on the discrete-event clock (simulated hours to days per run cost milliseconds). RefTimeline per task instance and rule: at most one firing, never before start_time+limit, fired by the quiescent point after the first tick at/after the limit while the task is open, none once the task is terminal, the timed task's state unchanged by a firing. Sampling: evidence, not proof.",
+        note="Trusted: the timer/clock shims (tokio interval with burst catch-up, chrono now). Millisecond granularity: a tick within 1 ms of a limit is accepted either way. The timed process is kept cached.",
+        technique="deterministic simulation: discrete-event clock, seeded tick phase / answer instant / clock-jump faults, timeline reference model",
+        ref="DESIGN.md §6 C19"),
     "C08": dict(
         text="Seeded search over programs (control flow, catches, generated acts) x clients using all action kinds x dispatch interleavings (every message dispatch is an independently scheduled task): the complete stream of a match-all channel is checked against the H2 trace and live dumps for multiplicity per task, created-before-terminal and parent-before-child in generation order (id shim), completeness, field agreement, unique ids. Sampling: evidence, not proof.",
         note="Trusted: id shim sequence numbers as generation order; H2 trace for final states. Delivery order of independently dispatched messages is not constrained (the statement speaks of generation).",
